@@ -36,7 +36,7 @@ func rulePDF417TextMachine(c *Ctx) {
 			nn := NewNormer(c.P)
 			nn.BindParams(fn, "text", "submode")
 			nn.Bind[p] = "idx"
-			if eq, _ := CondEquivalent(nn.EdgeCond(b, b.Succs[0]), MustRefCond("idx < len(text)")); eq && isIntType(p.Type()) {
+			if eq, _ := CondEquivalent(nn.LoopCond(b), MustRefCond("idx < len(text)")); eq && isIntType(p.Type()) {
 				hdr, idxP = b, p
 			}
 		}
@@ -335,7 +335,7 @@ func rulePDF417Latches(c *Ctx) {
 				if _, isSlice := p.Type().Underlying().(*types.Slice); isSlice && len(hdr.Succs) == 2 {
 					nn := NewNormer(c.P)
 					nn.Bind[p] = "data"
-					if eq, _ := CondEquivalent(nn.EdgeCond(hdr, hdr.Succs[0]), MustRefCond("len(data) > 0")); eq {
+					if eq, _ := CondEquivalent(nn.LoopCond(hdr), MustRefCond("len(data) > 0")); eq {
 						dataP = p
 					}
 				}
